@@ -166,6 +166,9 @@ FILTER_TEMPLATES = [
     "{{ n | minus: wanted }}", "{{ n | times: wanted }}", "{{ n | divided_by: wanted }}", "{{ n | at_least: wanted }}",
     "{{ title | default: wanted }}", "{{ wanted | default: title }}", "{{ flag | default: wanted, allow_false: true }}",
     "{% assign v = items | has: 'ok', wanted %}{{ v }}", "{% if items contains wanted %}y{% else %}n{% endif %}",
+    # membership of a missing value in arrays that hold nil / false / empty items
+    "{% if mixed contains wanted %}y{% else %}n{% endif %}", "{% unless mixed contains user.nick %}u{% endunless %}",
+    "{% assign v = mixed | has: wanted %}{{ v }}",
     "{% for i in items limit: wanted %}{{ i.id }}{% endfor %}", "{% for i in (1..wanted) %}{{ i }}{% endfor %}",
     "{% cycle wanted, 'b' %}", "{% case wanted %}{% when nil %}n{% when false %}f{% else %}e{% endcase %}",
     "{% case flag %}{% when wanted %}w{% else %}e{% endcase %}",
@@ -175,9 +178,9 @@ FILTER_TEMPLATES = [
     "{% for i in (1..3) %}{% cycle wanted.x, 'b' %}{% cycle wanted.y, 'b' %}{% endfor %}",
 ]
 FILTER_DATAS = [
-    {"user": {}, "items": [{"id": 1, "ok": False}, {"id": 2, "ok": False}], "names": ["a", "b"], "title": "hello", "n": 3, "flag": False},
-    {"items": [{"id": 1, "ok": True}, {"id": 2}, {"id": 3, "ok": None}], "names": [], "title": "", "n": 0, "flag": None},
-    {"items": [], "names": ["x"], "title": "l", "n": -1, "flag": True},
+    {"user": {}, "items": [{"id": 1, "ok": False}, {"id": 2, "ok": False}], "names": ["a", "b"], "title": "hello", "n": 3, "flag": False, "mixed": [None, 1]},
+    {"items": [{"id": 1, "ok": True}, {"id": 2}, {"id": 3, "ok": None}], "names": [], "title": "", "n": 0, "flag": None, "mixed": [False, "", []]},
+    {"items": [], "names": ["x"], "title": "l", "n": -1, "flag": True, "mixed": []},
 ]
 
 
